@@ -67,9 +67,9 @@ func (p *Prog) funcRefName(f *ssa.Function) string {
 func (p *Prog) DescribeFuncValue(v ssa.Value) string {
 	switch x := v.(type) {
 	case *ssa.Parameter:
-		return "param:" + x.Name()
+		return "param:" + p.ParamName(x)
 	case *ssa.FreeVar:
-		return "freevar:" + x.Name()
+		return "freevar:" + p.FreeVarName(x)
 	case *ssa.Function:
 		return p.funcRefName(x)
 	case *ssa.MakeClosure:
@@ -87,7 +87,7 @@ func (p *Prog) DescribeFuncValue(v ssa.Value) string {
 			case *ssa.FieldAddr:
 				return "field:" + FieldOwnerName(a.X.Type(), a.Field)
 			case *ssa.FreeVar:
-				return "freevar:" + a.Name()
+				return "freevar:" + p.FreeVarName(a)
 			case *ssa.Alloc:
 				return "local:" + a.Comment
 			case *ssa.Global:
@@ -111,6 +111,31 @@ func (p *Prog) DescribeFuncValue(v ssa.Value) string {
 	case *ssa.Const:
 		if x.IsNil() {
 			return "nil"
+		}
+	case *ssa.Call:
+		// the result of a transparent helper that selects the function
+		// (`fn := dw.dataCallback()`): what the helper can return
+		if rs := ResolveAll(x); len(rs) > 1 || (len(rs) == 1 && rs[0] != ssa.Value(x)) {
+			var parts []string
+			seen := map[string]bool{}
+			for _, r := range rs {
+				d := p.DescribeFuncValue(r)
+				if ph, isPhi := r.(*ssa.Phi); isPhi {
+					_ = ph
+					d = strings.TrimPrefix(d, "phi:")
+				}
+				for _, one := range strings.Split(d, "|") {
+					if !seen[one] {
+						seen[one] = true
+						parts = append(parts, one)
+					}
+				}
+			}
+			sort.Strings(parts)
+			if len(parts) == 1 {
+				return parts[0]
+			}
+			return "phi:" + strings.Join(parts, "|")
 		}
 	}
 	return "dyn:" + v.Name()
